@@ -540,6 +540,13 @@ class Leb128Field(VarField):
     def _terminate(self,b,f):
         return b&0x80==0
 
+    def copy(self,obj=None):
+        newf = super().copy(obj)
+        # (typename is 'c' after __init__, so the sign can't be recomputed)
+        newf.sign = self.sign
+        newf.N = self.N
+        return newf
+
     def unpack(self,data,offset=0, psize=0):
         val, sz = read_leb128(data,self.sign,offset)
         self._sz = sz
@@ -622,8 +629,11 @@ class CntField(RawField):
     def pack(self, value, psize=0):
         if not hasattr(self,"fcount"):
             self.fcount = self.count
-        self.count = len(value)
-        if isinstance(value,list):
+        self.count = len(value) if value is not None else 0
+        if self.count == 0:
+            # only the counter:
+            return struct.pack(self.order + self.fcount[1:], 0)
+        if isinstance(value,(list,tuple)):
             res = struct.pack(self.order + self.format(psize),
                               self.count, *value)
         else:
